@@ -305,7 +305,12 @@ class Failure:
         self.key = key  # known-finding key this failure matches, if any
 
     def to_json(self):
-        return {"kind": self.kind, "what": self.what, "detail": self.detail, "key": self.key}
+        d = {"kind": self.kind, "what": self.what, "detail": self.detail, "key": self.key}
+        if getattr(self, "sig", None) is not None:
+            d["sig"] = list(self.sig)
+        if getattr(self, "noshrink", False):
+            d["noshrink"] = True
+        return d
 
 
 def library_failure(e, props, what="a valid call"):
@@ -325,8 +330,12 @@ def library_failure(e, props, what="a valid call"):
     fr = frames[-1]
     props = sorted(props)
     label = props[0] if len(props) == 1 else "/".join(props)
-    return Failure("oracle", f"[{label}] {what} raised {type(e).__name__}: {str(e)[:200]} "
-                   f"(at ribs/{fr.filename.split('/ribs/')[-1]}:{fr.lineno} in {fr.name})")
+    f = Failure("oracle", f"[{label}] {what} raised {type(e).__name__}: {str(e)[:200]} "
+                f"(at ribs/{fr.filename.split('/ribs/')[-1]}:{fr.lineno} in {fr.name})")
+    # signature used by the shrinker: a smaller case counts only if it fails in the same way (dropping a `resize`
+    # can turn a later valid call into an invalid one, which the library is right to reject)
+    f.sig = ("library-exception", type(e).__name__, fr.filename.split('/ribs/')[-1], fr.name)
+    return f
 
 
 def jsonable(x):
@@ -452,9 +461,11 @@ class Ctx:
                     # another length, an attribute that is gone): the correspondence can no longer be established
                     tb = traceback.extract_tb(e.__traceback__)
                     fr = tb[-1]
-                    return Failure("corr", f"[{self.prop_id}] the harness could not interpret what the implementation "
-                                   f"returned: {type(e).__name__}: {str(e)[:160]} (at {os.path.basename(fr.filename)}:"
-                                   f"{fr.lineno} in {fr.name})")
+                    f = Failure("corr", f"[{self.prop_id}] the harness could not interpret what the implementation "
+                                f"returned: {type(e).__name__}: {str(e)[:160]} (at {os.path.basename(fr.filename)}:"
+                                f"{fr.lineno} in {fr.name})")
+                    f.sig = ("harness-exception", type(e).__name__, os.path.basename(fr.filename), fr.name)
+                    return f
                 return f
             finally:
                 if armed:       # back to the limit for whatever the check does between its cases
@@ -544,6 +555,8 @@ class Ctx:
                 if fj == "infra":
                     raise Infra(f"worker failed on case {idx}: {case}")
                 fail = None if fj is None else Failure(fj["kind"], fj["what"], fj.get("detail"), fj.get("key"))
+                if fj is not None and fj.get("sig"):
+                    fail.sig = tuple(fj["sig"])
                 delta = case.pop("_ctx_delta", None) or {}
                 self.nontrivial.update(delta.get("nontrivial", []))
                 for k_, v_ in delta.get("dist", {}).items():
@@ -627,7 +640,7 @@ def shrink(case, run, fail, key, max_runs=400):
             raise
         except Exception:  # pylint: disable=broad-except
             return False
-        return f is not None and f.kind == fail.kind
+        return f is not None and f.kind == fail.kind and getattr(f, "sig", None) == getattr(fail, "sig", None)
 
     ops = list(case[key])
     n = 2
@@ -802,7 +815,14 @@ def run_check(ctx, mod, argv):
     violations = []  # (replay_path, suffix)
 
     # 0. translators (regenerate model parts from /repo)
+    gen_lock = None
     if hasattr(mod, "translate"):
+        # the generated Lean files are shared by every check that translates: from regeneration until the proofs that
+        # import them are built and audited no other run may rewrite them (two runs on the same tree write the same
+        # text; runs on different trees -- seeded changes, mutants -- would otherwise judge each other's formulas)
+        import fcntl
+        gen_lock = open(os.path.join(LEAN, ".gen.lock"), "w")
+        fcntl.flock(gen_lock, fcntl.LOCK_EX)
         mod.translate(ctx)
 
     # 1. build
@@ -835,6 +855,9 @@ def run_check(ctx, mod, argv):
             print(r.stdout[-2000:])
             raise Infra("leanchecker rejected the compiled proof modules")
         checker_cmd += f" && lake env leanchecker {' '.join(modules)}"
+
+    if gen_lock is not None:
+        gen_lock.close()
 
     # 3. correspondence + oracle
     if len(argv) >= 3 and argv[1] == "--replay":
